@@ -17,7 +17,7 @@ ALL_KINDS = list(KINDS)
 STATES = ["ZERO", "ONE", "PLUS", "MINUS", "PLUS_I", "MINUS_I"]
 
 BASE = {
-    "mut": {"NEW": 6, "ADD_OP": 42, "ADD_OP_IN": 3, "ADD_SUB": 10, "COPY": 3, "APPLY": 5, "FLATTEN": 2, "SET_DUR": 3,
+    "mut": {"NEW": 6, "ADD_OP": 42, "ADD_OP_IN": 3, "ADD_SUB": 10, "ADD_LIVE": 2, "COPY": 3, "APPLY": 5, "FLATTEN": 2, "SET_DUR": 3,
             "SET_REP": 2, "OVR_ENTER": 3, "OVR_LEAVE": 3, "SET_INIT": 1, "NEW_LIB": 1},
     "obs": {"LIST": 6, "LIST_TWICE": 2, "TIMES": 8, "DURATION": 4, "COMPOSITES": 3, "COMP_TIMES": 2,
             "CHANNELS": 1, "ACQ": 3, "LAST": 1, "STIM": 3, "OPENQL": 2, "PLOT": 2, "REPR": 1, "COPYOBS": 2,
@@ -40,15 +40,15 @@ def _merge(base, over):
 
 
 PROFILES = {
-    "C01": _merge(BASE, {"mut": {"ADD_OP": 50, "ADD_OP_IN": 5, "ADD_SUB": 12, "APPLY": 6, "COPY": 1, "FLATTEN": 0, "NEW_LIB": 0, "SET_DUR": 6},
+    "C01": _merge(BASE, {"mut": {"ADD_OP": 50, "ADD_OP_IN": 5, "ADD_SUB": 12, "ADD_LIVE": 4, "APPLY": 6, "COPY": 1, "FLATTEN": 0, "NEW_LIB": 0, "SET_DUR": 6},
                          "obs": {"TIMES": 12, "FULL": 12, "PLOT": 2, "OPENQL": 0}, "p_rel": 0.45, "p_regdur": 0.3,
                          "flt": {"SINK_FAIL": 0}, "class": {"mut": 66, "obs": 30, "flt": 4}}),
-    "C02": _merge(BASE, {"mut": {"ADD_OP": 50, "ADD_OP_IN": 8, "ADD_SUB": 14, "APPLY": 3, "FLATTEN": 1, "NEW_LIB": 0, "SET_DUR": 1, "OVR_ENTER": 1, "OVR_LEAVE": 1},
+    "C02": _merge(BASE, {"mut": {"ADD_OP": 50, "ADD_OP_IN": 8, "ADD_SUB": 14, "ADD_LIVE": 4, "APPLY": 3, "FLATTEN": 1, "NEW_LIB": 0, "SET_DUR": 1, "OVR_ENTER": 1, "OVR_LEAVE": 1},
                          "obs": {"LIST": 12, "LIST_TWICE": 10, "LAST": 5, "COMPOSITES": 5, "FULL": 5, "PLOT": 0, "OPENQL": 0},
                          "p_rel": 0.4, "flt": {"SINK_FAIL": 0}, "class": {"mut": 62, "obs": 34, "flt": 4}}),
     "C03": _merge(BASE, {"class": {"mut": 48, "obs": 38, "flt": 14}, "mut": {"SET_DUR": 6, "OVR_ENTER": 5, "OVR_LEAVE": 5, "APPLY": 6},
                          "p_regdur": 0.35}),
-    "C04": _merge(BASE, {"mut": {"ADD_OP": 50, "ADD_OP_IN": 6, "ADD_SUB": 14, "APPLY": 3, "FLATTEN": 0, "NEW_LIB": 0, "COPY": 1, "SET_DUR": 6},
+    "C04": _merge(BASE, {"mut": {"ADD_OP": 50, "ADD_OP_IN": 6, "ADD_SUB": 14, "ADD_LIVE": 4, "APPLY": 3, "FLATTEN": 0, "NEW_LIB": 0, "COPY": 1, "SET_DUR": 6},
                          "obs": {"DURATION": 8, "TIMES": 12, "COMP_TIMES": 6, "FULL": 10, "PLOT": 2, "OPENQL": 0, "STIM": 1},
                          "p_rel": 0.6, "p_regdur": 0.3, "flt": {"SINK_FAIL": 0}, "class": {"mut": 64, "obs": 32, "flt": 4},
                          "kinds_bias": ["Wait", "SingleQubitOperation", "TwoQubitOperation", "VirtualVacant"]}),
@@ -370,6 +370,47 @@ class Gen:
             c.rel = ("FOLLOWED_BY", v["adm"][-1])
         if child in self.lib_handles:
             self.lib_handles.add(parent)
+        return True
+
+    def mk_add_live(self, s):
+        """nest the live structure of another circuit through add_operation (no copy): two circuits, one block"""
+        rng = self.rng
+        m = self.model
+        parents = [h for h in self.sess_handles[s] if h in self.decl and h not in self.lib_handles and h not in self.flat]
+        if not parents:
+            return False
+        parent = rng.choice(parents)
+        cands = []
+        for h in self.all_handles():
+            if h == parent or h not in self.decl or h in self.lib_handles or h in self.flat:
+                continue
+            r = m.roots[h]
+            if r is m.roots[parent] or not r.rel_known:
+                continue
+            if sum(1 for x in m.roots.values() if x is r) != 1:
+                continue   # only circuits held through a single handle
+            cands.append(h)
+        if not cands:
+            return False
+        child = rng.choice(cands)
+        if m.max_depth(m.roots[child]) + 1 > self.depth_cap:
+            return False
+        if self.unrolled(parent) + self.unrolled(child) > 70 or m.leaf_count(parent) + m.leaf_count(child) > 40:
+            return False
+        try:
+            c, v = m.add_live(parent, child)
+        except ModelError:
+            return False
+        self.emit({"s": s, "op": "ADD_LIVE", "c": parent, "child": child})
+        if m.roots[parent].rel_known and v.get("adm"):
+            c.rel = ("FOLLOWED_BY", v["adm"][-1])
+        m.settle_live(c)
+        del m.roots[child]
+        for lst in self.sess_handles.values():
+            if child in lst:
+                lst.remove(child)
+        self.dropped.add(child)
+        self.decl.discard(child)
         return True
 
     def mk_copy(self, s):
@@ -872,7 +913,7 @@ class Gen:
     # ------------------------------------------------------------ main loop
     def run(self):
         rng = self.rng
-        makers = {"NEW": self.mk_new, "ADD_OP": self.mk_add_op, "ADD_OP_IN": self.mk_add_op_in, "ADD_SUB": self.mk_add_sub, "COPY": self.mk_copy,
+        makers = {"NEW": self.mk_new, "ADD_OP": self.mk_add_op, "ADD_OP_IN": self.mk_add_op_in, "ADD_SUB": self.mk_add_sub, "ADD_LIVE": self.mk_add_live, "COPY": self.mk_copy,
                   "APPLY": self.mk_apply, "FLATTEN": self.mk_flatten, "SET_DUR": self.mk_set_dur,
                   "SET_REP": self.mk_set_rep, "OVR_ENTER": self.mk_ovr_enter, "OVR_LEAVE": self.mk_ovr_leave,
                   "SET_INIT": self.mk_set_init, "NEW_LIB": self.mk_new_lib}
